@@ -338,3 +338,18 @@ def regen_kernel(ck):
              'type check; every cbuf / c access must be in the column of the kernel\'s own lane variable) and the meaning of its primitives '
              '(Model/WaveSrcPrelude.v: region-wise memory, extended-integer time); the hand-written model stays tied by correspondence as well')
     return res['WaveEvalSrc'] is None
+
+
+def regen_drivers(ck):
+    """Tie T for the DRIVER code of the timing simulator: regenerates Gen/WaveDriversSrc.v from the CURRENT text of wave_sim.py / sim.py
+    (translate/gen_wave_drivers.py): GPU kernels and the CPU loop nest statement by statement, the vectorised numpy statements of the
+    CPU methods as pinned syntax trees.  The theorems *_driver_* / C06_assign_* / C06_accumulate_* / C06_capture_writeback_* /
+    C06_state_transfer_* are proved about the generated file."""
+    from vcheck import gen_all
+    res = gen_all.generate(['WaveDriversSrc'])
+    ck.obligation('translate wave_assign_gpu / ppo_to_ppi_gpu / wave_eval_gpu / level_eval_cpu / wave_capture_gpu write-back + pinned CPU '
+                  'driver statements -> Gen/WaveDriversSrc.v', res['WaveDriversSrc'] is None, 'translation', res['WaveDriversSrc'] or '')
+    ck.trust('translator translate/gen_wave_drivers.py (per-instance semantics on one lane; every c / s / abuf / simctl_int access must be in '
+             'the column of the kernel\'s own lane variable) and the meaning of its primitives and of the pinned numpy statements '
+             '(Model/WaveDrvPrelude.v: numpy indexing, fancy-index stores, the call of the merge kernel on the regions of one op)')
+    return res['WaveDriversSrc'] is None
